@@ -8,6 +8,7 @@ the OUTPUT TREE (files, exports, status branches).  Binding B: hook traces valid
 """
 from __future__ import annotations
 
+import json
 import ast
 import random
 import re
@@ -240,6 +241,30 @@ def _resolve(doc, node):
     return node if isinstance(node, dict) else {}
 
 
+def cli_reporting(rep, d) -> None:
+    """What the COMMAND prints: every diagnostic the generator produced is printed, whatever else was reported next to it - warnings next to an
+    error-level diagnostic (a failing post hook) included."""
+    from .. import zoo
+    doc = zoo.zoo_warn()
+    src = gen.dump(doc, d / "cli-zoo-warn.json")
+    reference = gen.generate(doc, d / "cli-ref")                      # the diagnostics themselves (in-process, no hook)
+    if reference["exc"] or reference["rejected"] or not reference["diags"]:
+        return
+    heads = sorted({x["header"] for x in reference["diags"] if x["header"]})
+    for hook, label in ((["true"], "hook-ok"), (["false"], "hook-fails"), (["no-such-command-opcv"], "hook-missing")):
+        cfgp = d / f"cli-{label}.json"
+        cfgp.write_text(json.dumps({"post_hooks": hook}))
+        code, output, exc = gen.cli_inproc(["generate", "--path", str(src), "--meta", "none", "--output-path", str(d / f"cli-out-{label}"), "--config", str(cfgp)], d)
+        rep.count(1, ("cli-reporting", label))
+        if exc:
+            rep.violate(f"C07/cli-reporting/{label}/crash", exc.strip().splitlines()[-1][:200])
+            continue
+        flat = " ".join(output.split())
+        lost = [h for h in heads if " ".join(h.split()) not in flat]
+        if lost:
+            rep.violate(f"C07/cli-reporting/{label}/diagnostics-not-printed", f"{len(lost)} of {len(heads)} diagnostics are not printed by the command ({label}), e.g. {lost[0][:120]!r}", lost=lost[:10])
+
+
 def generic_census(rep, name: str, doc: dict, d) -> None:
     """Census on an ARBITRARY document: every component schema that describes an object or an enumeration, every operation, every
     documented status, every request media type and every parameter is either visible in the generated tree or named in a diagnostic."""
@@ -352,6 +377,7 @@ def run(rep) -> None:
                 continue
             generic_census(rep, gname, gdoc, d)
         rep.extra["generic_census_documents"] = sorted(gdocs)
+        cli_reporting(rep, d)
         docs = [(pipe.concretize(c["doc"]), c["doc"]) for c in rnd.sample(cases, 400 if quick else 4000)]
         docs += [(pipe.concretize(a), a) for a in pipe.random_adocs(rnd, 300 if quick else 3000)]
         pipe.trace_batch(rep, docs, d, "C07", _law_key)
